@@ -99,9 +99,10 @@ def observe (d : Model.Base58.B58Data) (obs : String) : String :=
     | 'b' => toHex d.data                    -- bytes(d)
     | 't' => toHex d.data                    -- d.to_bytes()
     | 'v' => toString d.nVersion.toNat
-    | 'r' => "CBase58Data('" ++ text ++ "')"
-    | 'e' => "True"                          -- d == bytes(d)
-    | 'h' => "True"                          -- hash(d) == hash(bytes(d))
+    -- repr / == / hash are EVENTS only (they may fill caches); their values are not constrained by the property
+    | 'r' => "ok"
+    | 'e' => "ok"
+    | 'h' => "ok"
     | _ => "?"
 
 def handle (op : String) (args : List String) : Option String :=
